@@ -28,6 +28,9 @@ type IterCase struct {
 	Seed    uint64 `json:"seed"`
 	Mode    int    `json:"mode"` // 0 ModeAll 1 ModeLatest 2 ModeGC
 	GetMiss bool   `json:"get_miss"`
+	// Early: reads made right after the iterator was opened, before its first item is taken (Storage.Find followed
+	// by Storage.Get before the first Iterator.Next): nothing orders them with the start of the producer goroutine.
+	Early int `json:"early,omitempty"`
 }
 
 func genIterCase(t *rapid.T) IterCase {
@@ -39,6 +42,7 @@ func genIterCase(t *rapid.T) IterCase {
 		Seed:    rapid.Uint64().Draw(t, "seed"),
 		Mode:    rapid.IntRange(0, 2).Draw(t, "mode"),
 		GetMiss: rapid.Bool().Draw(t, "get_miss"),
+		Early:   rapid.SampledFrom([]int{0, 1, 2, 5}).Draw(t, "early"),
 	}
 }
 
@@ -88,6 +92,15 @@ func checkIterCase(c IterCase, o *vt.Obs) error {
 	ctx, cancel := context.WithCancel(context.Background())
 	defer cancel()
 	ch := dao.SeekAsync(ctx, storage.SeekRange{Prefix: pfx}, false)
+	for i := 0; i < c.Early && i < 50; i++ {
+		k := keys[(i*c.Stride)%len(keys)]
+		if v, err := dao.Get([]byte(k)); err != nil || !bytes.Equal(v, items[k]) {
+			return fmt.Errorf("Get(%x) right after the iterator was opened: %x, %v; the state has %x", k, v, err, items[k])
+		}
+	}
+	if c.Early > 0 {
+		o.Label("early-gets")
+	}
 	n := 0
 	for kv := range ch {
 		if n >= len(want) {
